@@ -9,7 +9,7 @@ Ltac Zify.zify_post_hook ::= Z.div_mod_to_equations.
 (* ---------- induction over shapes ---------- *)
 Section ShapeInd.
   Variable P : shape -> Prop.
-  Hypothesis Hscalar : forall s, (match s with SVec _ | SClass _ | SBytes | SMap _ _ _ | SArr _ _ | SVecBool | STuple _ => False | _ => True end) -> P s.
+  Hypothesis Hscalar : forall s, (match s with SVec _ | SClass _ | SBytes | SMap _ _ _ | SArr _ _ | SVecBool | STuple _ | SOpt _ => False | _ => True end) -> P s.
   Hypothesis Hbytes : P SBytes.
   Hypothesis Hvec : forall e, P e -> P (SVec e).
   Hypothesis Hclass : forall ms, Forall (fun m => P (snd m)) ms -> P (SClass ms).
@@ -17,6 +17,7 @@ Section ShapeInd.
   Hypothesis Harr : forall n e, P e -> P (SArr n e).
   Hypothesis Hvb : P SVecBool.
   Hypothesis Htuple : forall ss, Forall P ss -> P (STuple ss).
+  Hypothesis Hopt : forall e, P e -> P (SOpt e).
   Fixpoint shape_ind' (s : shape) : P s :=
     match s with
     | SVec e => Hvec e (shape_ind' e)
@@ -29,6 +30,7 @@ Section ShapeInd.
     | SMap m ks e => Hmap m ks e (shape_ind' e)
     | SArr n e => Harr n e (shape_ind' e)
     | SVecBool => Hvb
+    | SOpt e => Hopt e (shape_ind' e)
     | STuple ss => Htuple ss ((fix go (ss : list shape) : Forall P ss :=
                                  match ss with
                                  | [] => Forall_nil _
@@ -151,7 +153,7 @@ Section Programs.
     exists c, spec_areqs (v :: vs) (mk_areqs (elem_prog s i v)) = ((toks, None, c), vs).
 
   Definition member_tr (s : shape) (i : tv) (ov : option mpv) : list tok * lres :=
-    match ov with Some x => load_tr s i x | None => (absent_toks s, LNot) end.
+    match ov with Some x => load_tr s i x | None => (absent_toks s, absent_res s) end.
 
   Definition member_ok (s : shape) : Prop :=
     forall i q kvs toks r, (forall x, lookup (key_of_q q) kvs = Some x -> dok s x) ->
@@ -216,7 +218,7 @@ Section Programs.
     - inversion HD as [|? ? HDv HDvs]; subst.
       destruct (load_e (hd (default_of e) inits) v) as [t r] eqn:El.
       assert (Hr : no_err r /\ exists t' items', elems_tr e load_e after (tl inits) vs = (t', items', None) /\ toks = KIsEnd false :: t ++ t').
-      { destruct r; [| |discriminate H].
+      { destruct r; [| | |discriminate H].
         all: destruct (elems_tr e load_e after (tl inits) vs) as [[t' items'] err]; injection H as <- _ ->; split; [exact I | eauto]. }
       destruct Hr as [Hne [t' [items' [Hrest ->]]]].
       destruct (He _ v vs t r HDv El Hne) as [c1 E1]. destruct (IH (tl inits) t' items' HDvs Hrest) as [c2 E2].
@@ -235,9 +237,9 @@ Section Programs.
     - injection H as <- _. exists true. reflexivity.
     - cbn [snd] in Hm.
       set (i0 := match inits with (_, x) :: _ => x | [] => default_of s' end) in *.
-      destruct (match lookup (KStr name) kvs with Some x => load_tr s' i0 x | None => (absent_toks s', LNot) end) as [t r] eqn:El.
+      destruct (match lookup (KStr name) kvs with Some x => load_tr s' i0 x | None => (absent_toks s', absent_res s') end) as [t r] eqn:El.
       assert (Hr : no_err r /\ exists t' f', members_tr load_tr kvs (tl inits) ms = (t', f', None) /\ toks = t ++ t').
-      { destruct r; [| |discriminate H].
+      { destruct r; [| | |discriminate H].
         all: destruct (members_tr load_tr kvs (tl inits) ms) as [[t' f'] err]; injection H as <- _ ->; split; [exact I | eauto]. }
       destruct Hr as [Hne [t' [f' [Hrest ->]]]].
       destruct (Hm i0 (QStr name) kvs t r (fun x Hx => HD name s' x (or_introl eq_refl) Hx) El Hne) as [c1 E1].
@@ -335,8 +337,10 @@ Section Programs.
   Proof.
     induction vs as [|v vs IH]; intros prev t items err H after inits; cbn [bools_tr elems_tr] in *.
     - injection H as <- _ <-. eexists. reflexivity.
-    - destruct (ld v) as [t0 r0]. destruct r0 as [x| |e0].
+    - destruct (ld v) as [t0 r0]. destruct r0 as [x| |x|e0].
       + destruct (bools_tr ld (match x with TBool b => b | _ => prev end) vs) as [[t' i'] e'] eqn:Eb. injection H as <- _ <-.
+        destruct (IH _ _ _ _ Eb after (tl inits)) as [i2 E2]. rewrite E2. eexists. reflexivity.
+      + destruct (bools_tr ld prev vs) as [[t' i'] e'] eqn:Eb. injection H as <- _ <-.
         destruct (IH _ _ _ _ Eb after (tl inits)) as [i2 E2]. rewrite E2. eexists. reflexivity.
       + destruct (bools_tr ld prev vs) as [[t' i'] e'] eqn:Eb. injection H as <- _ <-.
         destruct (IH _ _ _ _ Eb after (tl inits)) as [i2 E2]. rewrite E2. eexists. reflexivity.
@@ -431,7 +435,7 @@ Section Programs.
       + destruct (o_mismatch o); [discriminate H|]. injection H as <- _. eexists _, _. reflexivity.
       + destruct (load_tr s (hd (default_of s) inits) v) as [t r] eqn:El.
         assert (Hr : no_err r /\ exists t' items', comps_tr o load_tr ss (tl inits) vs = (t', items', None) /\ toks = KIsEnd false :: t ++ t').
-        { destruct r; [| |discriminate H].
+        { destruct r; [| | |discriminate H].
           all: destruct (comps_tr o load_tr ss (tl inits) vs) as [[t' items'] err]; injection H as <- _ ->; split; [exact I | eauto]. }
         destruct Hr as [Hne [t' [items' [Hrest ->]]]].
         destruct (Hs _ v vs t r (HD s v (or_introl eq_refl)) El Hne) as [c1 E1].
@@ -458,12 +462,13 @@ Section Programs.
   Qed.
 
   (* the keyed load from inside the callback is the keyed load of a member whose key finds the value *)
-  Lemma vact_of_member s : member_ok s -> vact_ok s.
+  Definition not_opt (s : shape) : Prop := match s with SOpt _ => False | _ => True end.
+  Lemma vact_of_member s : not_opt s -> member_ok s -> vact_ok s.
   Proof.
-    intros Hm i q kvs x toks r Hl HD H Hn. specialize (Hm i q kvs toks r). unfold member_tr in Hm. rewrite Hl in Hm.
+    intros Hs Hm i q kvs x toks r Hl HD H Hn. specialize (Hm i q kvs toks r). unfold member_tr in Hm. rewrite Hl in Hm.
     assert (HD' : forall y, Some x = Some y -> dok s y) by (intros y Hy; injection Hy as <-; exact HD).
     destruct (Hm HD' H Hn) as [c E]. clear Hm HD'.
-    destruct s; cbn [MpLoadModel.member_prog MpLoadModel.vact_prog target_of] in *;
+    destruct s; try (destruct Hs; fail); cbn [MpLoadModel.member_prog MpLoadModel.vact_prog target_of] in *;
       try (apply one_req_inv in E; destruct E as [c' E]; exists c'; exact E).
     (* byte container *)
     destruct (is_bin x) eqn:Hb.
@@ -507,7 +512,7 @@ Section Programs.
                              | failed => failed end) = (toks, None, c)).
         { intros i0 H0. destruct (load_tr e i0 x) as [t r] eqn:El.
           assert (Hr : no_err r /\ exists t' es', entries_tr o only ks e (load_tr e) m0 kvs2 = (t', es', None) /\ toks = t ++ t').
-          { destruct r; [| |discriminate H0].
+          { destruct r; [| | |discriminate H0].
             all: destruct (entries_tr o only ks e (load_tr e) m0 kvs2) as [[t' es'] err]; injection H0 as <- _ ->; split; [exact I | eauto]. }
           destruct Hr as [Hne [t' [es' [Hrest ->]]]].
           assert (Hl : lookup (key_of_q (qkey_of_key kk)) kvs = Some x).
@@ -548,11 +553,11 @@ Section Programs.
 
   Theorem progs_ok : forall s, elem_ok s /\ member_ok s /\ vact_ok s.
   Proof.
-    assert (Hthird : forall s, elem_ok s /\ member_ok s -> elem_ok s /\ member_ok s /\ vact_ok s)
-      by (intros s [H1 H2]; split; [exact H1 | split; [exact H2 | exact (vact_of_member s H2)]]).
+    assert (Hthird : forall s, not_opt s -> elem_ok s /\ member_ok s -> elem_ok s /\ member_ok s /\ vact_ok s)
+      by (intros s Hs [H1 H2]; split; [exact H1 | split; [exact H2 | exact (vact_of_member s Hs H2)]]).
     apply shape_ind'.
     - (* one typed read *)
-      intros s Hs. apply Hthird.
+      intros s Hs. apply Hthird; [destruct s; try destruct Hs; exact I|].
       assert (Ht : exists t, target_of s = Some t /\ forall i v, load_tr s i v = scalar_tr narrow widen o s t v
                                      /\ elem_prog s i v = [AGet t] /\ forall q ov, member_prog s i q ov = [RGet q t] /\ absent_toks s = [KFalse])
         by (destruct s; try destruct Hs; eexists; (split; [reflexivity|]); intros i v; repeat split).
@@ -568,7 +573,7 @@ Section Programs.
           destruct (typed_spec narrow widen o t v); injection H as <- <-; try (exfalso; exact Hn); cbn [of_tres]; eexists; reflexivity.
         * rewrite Ha in H. injection H as <- _. eexists. reflexivity.
     - (* byte container *)
-      apply Hthird. split.
+      apply Hthird; [exact I|]. split.
       + intros i v vs toks r _ H Hn. cbn [MpLoadModel.load_tr] in H.
         destruct (is_bin v) eqn:Hb.
         * destruct v; try discriminate Hb. injection H as <- _. cbn [MpLoadModel.elem_prog mk_areqs]. rewrite spec_areqs_cons.
@@ -597,7 +602,7 @@ Section Programs.
               injection H as <- <-; eexists _, _; (split; [reflexivity | split; reflexivity]). }
           destruct Hl as [t [r0 [Ev [-> ->]]]]. rewrite Hp. exact (bytes_fallback_member q kvs v t r0 El Hb Ev Hn).
     - (* sequence container *)
-      intros e [IHe _]. apply Hthird. split.
+      intros e [IHe _]. apply Hthird; [exact I|]. split.
       + intros i v vs toks r HD H Hn. rewrite elem_prog_vec. cbn [MpLoadModel.load_tr] in H. rewrite vec_is_arr in H.
         destruct (vec_elem e _ (elem_prog e) _ _ (dok e) (arr_items i) v vs toks r IHe (fun l El => dok_vec e l (eq_ind _ (dok (SVec e)) HD _ El)) H Hn) as [c E].
         rewrite (one_areq _ _ _ _ E). eexists. rewrite app_nil_r. reflexivity.
@@ -606,7 +611,7 @@ Section Programs.
         { destruct (lookup (key_of_q q) kvs); exact H. }
         cbn [mk_reqs]. rewrite spec_reqs_cons, E. cbn [MpScopeSpec.spec_reqs]. eexists. rewrite app_nil_r. reflexivity.
     - (* class *)
-      intros ms Hms. apply Hthird.
+      intros ms Hms. apply Hthird; [exact I|].
       assert (Hm : Forall (fun m => member_ok (snd m)) ms) by (eapply Forall_impl; [|exact Hms]; intros m [_ [Hmm _]]; exact Hmm).
       assert (Hbody : forall i v toks r, dok (SClass ms) v -> load_tr (SClass ms) i v = (toks, r) -> no_err r ->
                 exists c, (match v with
@@ -626,7 +631,7 @@ Section Programs.
         * destruct (Hbody i v toks r (HD v eq_refl) H Hn) as [c E]. cbn [mk_reqs] in E |- *. destruct v; rewrite E; cbn [MpScopeSpec.spec_reqs]; eexists; rewrite app_nil_r; reflexivity.
         * injection H as <- _. cbn [MpScopeSpec.spec_reqs absent_toks]. eexists. reflexivity.
     - (* std::map *)
-      intros m ks e [_ [_ IHv]]. apply Hthird. pose proof (map_body m ks e IHv) as Hbody. split.
+      intros m ks e [_ [_ IHv]]. apply Hthird; [exact I|]. pose proof (map_body m ks e IHv) as Hbody. split.
       + intros i v vs toks r HD H Hn. rewrite ?elem_prog_class, ?elem_prog_map. cbn [mk_areqs]. rewrite spec_areqs_cons, spec_areq_obj.
         destruct (Hbody i v toks r HD H Hn) as [c E]. cbn [mk_reqs] in E |- *. destruct v; rewrite E; cbn [MpScopeSpec.spec_areqs]; eexists; rewrite app_nil_r; reflexivity.
       + intros i q kvs toks r HD H Hn. unfold member_tr in H. rewrite ?member_prog_class, ?member_prog_map. cbn [mk_reqs]. rewrite spec_reqs_cons, spec_req_obj.
@@ -634,7 +639,7 @@ Section Programs.
         * destruct (Hbody i v toks r (HD v eq_refl) H Hn) as [c E]. cbn [mk_reqs] in E |- *. destruct v; rewrite E; cbn [MpScopeSpec.spec_reqs]; eexists; rewrite app_nil_r; reflexivity.
         * injection H as <- _. cbn [MpScopeSpec.spec_reqs absent_toks]. eexists. reflexivity.
     - (* fixed-size array *)
-      intros n e [IHe _]. apply Hthird. split.
+      intros n e [IHe _]. apply Hthird; [exact I|]. split.
       + intros i v vs toks r HD H Hn. rewrite elem_prog_arr. apply arr_as_vec in H; [|exact Hn].
         destruct (vec_elem e _ (elem_prog e) _ _ (dok e) (arr_items i) v vs toks r IHe (fun l El => dok_arr n e l (eq_ind _ (dok (SArr n e)) HD _ El)) H Hn) as [c E].
         rewrite (one_areq _ _ _ _ E). eexists. rewrite app_nil_r. reflexivity.
@@ -643,7 +648,7 @@ Section Programs.
         { destruct (lookup (key_of_q q) kvs); [exact (arr_as_vec n e i _ toks r H Hn) | exact H]. }
         cbn [mk_reqs]. rewrite spec_reqs_cons, E. cbn [MpScopeSpec.spec_reqs]. eexists. rewrite app_nil_r. reflexivity.
     - (* std::vector<bool> *)
-      apply Hthird. split.
+      apply Hthird; [exact I|]. split.
       + intros i v vs toks r _ H Hn. rewrite elem_prog_vb. destruct (vb_as_vec i v toks r H Hn) as [r' [H' Hn']].
         destruct (vec_elem SBool _ bool_prog _ _ any [] v vs toks r' bool_elem (fun l _ => any_all l) H' Hn') as [c E].
         cbn [default_of] in E. rewrite (one_areq _ _ _ _ E). eexists. rewrite app_nil_r. reflexivity.
@@ -656,7 +661,7 @@ Section Programs.
         destruct (vec_member SBool _ bool_prog _ TArr any [] q kvs toks r' bool_elem (fun l _ => any_all l) H' Hn') as [c E].
         cbn [default_of] in E. cbn [mk_reqs]. rewrite spec_reqs_cons, E. cbn [MpScopeSpec.spec_reqs]. eexists. rewrite app_nil_r. reflexivity.
     - (* std::tuple *)
-      intros ss Hss. apply Hthird.
+      intros ss Hss. apply Hthird; [exact I|].
       assert (He : Forall elem_ok ss) by (eapply Forall_impl; [|exact Hss]; intros s0 [H0 _]; exact H0).
       pose proof (tuple_body ss He) as Hbody. split.
       + intros i v vs toks r HD H Hn. rewrite elem_prog_tuple. cbn [mk_areqs]. rewrite spec_areqs_cons, spec_areq_arr.
@@ -668,6 +673,21 @@ Section Programs.
         * destruct (Hbody i v toks r (HD v eq_refl) H Hn) as [c E].
           destruct v; rewrite E; cbn [MpScopeSpec.spec_reqs]; eexists; rewrite app_nil_r; reflexivity.
         * injection H as <- _. cbn [MpScopeSpec.spec_reqs absent_toks]. eexists. reflexivity.
+    - (* std::optional / unique_ptr / shared_ptr: the program and the answers of the wrapped value *)
+      intros e [IHe [IHm IHv]].
+      assert (Hn' : forall r, no_err (opt_res r) -> no_err r) by (intros r; destruct r; intros H; exact H || exact I).
+      split; [|split].
+      + intros i v vs toks r HD H Hn. cbn [MpLoadModel.load_tr] in H. destruct (load_tr e (opt_init e i) v) as [t r0] eqn:El.
+        injection H as <- <-. exact (IHe (opt_init e i) v vs t r0 HD El (Hn' r0 Hn)).
+      + intros i q kvs toks r HD H Hn. unfold member_tr in H.
+        change (member_prog (SOpt e) i q (lookup (key_of_q q) kvs)) with (member_prog e (opt_init e i) q (lookup (key_of_q q) kvs)).
+        assert (H' : exists r0, member_tr e (opt_init e i) (lookup (key_of_q q) kvs) = (toks, r0) /\ no_err r0).
+        { unfold member_tr. destruct (lookup (key_of_q q) kvs) as [x|].
+          - cbn [MpLoadModel.load_tr] in H. destruct (load_tr e (opt_init e i) x) as [t r0]. injection H as <- <-. exists r0. split; [reflexivity | exact (Hn' r0 Hn)].
+          - injection H as <- _. cbn [absent_toks]. eexists. split; [reflexivity|]. destruct e; exact I. }
+        destruct H' as [r0 [H' Hn0]]. exact (IHm (opt_init e i) q kvs toks r0 HD H' Hn0).
+      + intros i q kvs x toks r Hl HD H Hn. cbn [MpLoadModel.load_tr] in H. destruct (load_tr e (opt_init e i) x) as [t r0] eqn:El.
+        injection H as <- <-. exact (IHv (opt_init e i) q kvs x t r0 Hl HD El (Hn' r0 Hn)).
   Qed.
 End Programs.
 
@@ -696,10 +716,10 @@ Fixpoint tuple_shape (l : list tv) (ss : list shape) : bool :=
   | _, _ => false
   end.
 Lemma has_shape_tuple l : forall ss, has_shape (TArr l) (STuple ss) = tuple_shape l ss.
-Proof. induction l as [|x t IH]; intros [|s' ss']; reflexivity. Qed.
+Proof. induction l as [|x t IH]; intros [|s' ss']; try reflexivity. cbn [tuple_shape]. rewrite <- IH. reflexivity. Qed.
 Lemma has_shape_obj l : forall ms, has_shape (TObj l) (SClass ms) = class_shape l ms.
 Proof.
-  induction l as [|[k x] t IH]; intros [|[name s'] ms']; reflexivity.
+  induction l as [|[k x] t IH]; intros [|[name s'] ms']; try reflexivity. cbn [class_shape]. rewrite <- IH. reflexivity.
 Qed.
 
 Fixpoint map_shape (ks : kshape) (e : shape) (l : list (tv * tv)) : bool :=
@@ -811,15 +831,63 @@ Section RoundTrip.
   Variable o : opts.
   Notation load_tr := (load_tr narrow widen o).
 
+  (* the result of loading back what was saved: loaded; or (an empty wrapper, saved as nil) reset to empty *)
+  Definition is_opt (s : shape) : Prop := match s with SOpt _ => True | _ => False end.
+  Definition rt_out (s : shape) (v : tv) (r : lres) : Prop := r = LOk v \/ (r = LReset TNil /\ v = TNil /\ is_opt s).
+
   (* whatever the target holds (i), when every std::map of the shape is loaded with Clean *)
   Definition rt (v : tv) : Prop :=
     forall s i, has_shape v s = true -> clean_maps s = true -> wf_tv v -> doc_ok (abs v) = true ->
-    exists toks, load_tr s i (abs v) = (toks, LOk v).
+    exists toks r, load_tr s i (abs v) = (toks, r) /\ rt_out s v r.
+
+  Lemma fill_out e x r : rt_out e x r -> fill e r = x.
+  Proof. intros [-> | [-> [-> E]]]; [reflexivity | destruct e; try destruct E; reflexivity]. Qed.
+  Lemma keep_out e i x r : rt_out e x r -> keep i r = x.
+  Proof. intros [-> | [-> [-> _]]]; reflexivity. Qed.
+  Lemma out_no_err e x r : rt_out e x r -> match r with LErr _ => False | _ => True end.
+  Proof. intros [-> | [-> _]]; exact I. Qed.
 
   Lemma in_range_kind k z : ikind_range k z = true -> in_range (ity_of_kind k) z = true.
   Proof. destruct k; intros H; exact H. Qed.
 
-  Lemma rt_elems e after : (forall i x, after i (LOk x) = x) -> clean_maps e = true ->
+  (* nil into any target: loaded (nullptr_t), not loaded, or a wrapper reset *)
+  Lemma nil_load : forall e i, exists t r, load_tr e i MNil = (t, r) /\ (r = LOk TNil \/ r = LNot \/ r = LReset TNil).
+  Proof.
+    apply (shape_ind' (fun e => forall i, exists t r, load_tr e i MNil = (t, r) /\ (r = LOk TNil \/ r = LNot \/ r = LReset TNil))).
+    - intros s Hs i. destruct s; try destruct Hs; eexists _, _; (split; [reflexivity|]); auto.
+    - intros i. eexists _, _. split; [reflexivity|]. auto.
+    - intros e _ i. eexists _, _. split; [reflexivity|]. auto.
+    - intros ms _ i. eexists _, _. split; [reflexivity|]. auto.
+    - intros m ks e _ i. eexists _, _. split; [reflexivity|]. auto.
+    - intros n e _ i. eexists _, _. split; [reflexivity|]. auto.
+    - intros i. eexists _, _. split; [reflexivity|]. auto.
+    - intros ss _ i. eexists _, _. split; [reflexivity|]. auto.
+    - intros e IH i. cbn [MpLoadModel.load_tr]. destruct (IH (opt_init e i)) as [t [r [E Hr]]]. rewrite E.
+      eexists _, _. split; [reflexivity|]. destruct Hr as [-> | [-> | ->]]; cbn [opt_res]; auto.
+  Qed.
+
+  (* from the shapes that are not wrappers to all shapes *)
+  Lemma rt_lift v :
+    (forall s i, not_opt s -> has_shape v s = true -> clean_maps s = true -> wf_tv v -> doc_ok (abs v) = true ->
+       exists toks, load_tr s i (abs v) = (toks, LOk v)) -> rt v.
+  Proof.
+    intros H s i Hs Hc Hw Hd.
+    assert (Hno : not_opt s -> exists toks r, load_tr s i (abs v) = (toks, r) /\ rt_out s v r).
+    { intros Hn. destruct (H s i Hn Hs Hc Hw Hd) as [t E]. exists t, (LOk v). split; [exact E | left; reflexivity]. }
+    destruct s; try (apply Hno; exact I). clear Hno.
+    cbn [MpLoadModel.load_tr]. cbn [clean_maps] in Hc.
+    assert (Hnil : v = TNil -> exists toks r, (let (t, r0) := load_tr s (opt_init s i) (abs v) in (t, opt_res r0)) = (toks, r) /\ rt_out (SOpt s) v r).
+    { intros ->. cbn [abs]. destruct (nil_load s (opt_init s i)) as [t [r [E Hr]]]. rewrite E. eexists _, _. split; [reflexivity|].
+      destruct Hr as [-> | [-> | ->]]; cbn [opt_res]; [left; reflexivity | right; repeat split | right; repeat split]. }
+    assert (Hval : v <> TNil -> exists toks r, (let (t, r0) := load_tr s (opt_init s i) (abs v) in (t, opt_res r0)) = (toks, r) /\ rt_out (SOpt s) v r).
+    { intros Hv. assert (Hs' : not_opt s /\ has_shape v s = true).
+      { cbn [has_shape] in Hs. destruct v; try (exfalso; apply Hv; reflexivity); destruct s; try discriminate Hs; split; try exact I; exact Hs. }
+      destruct Hs' as [Hn Hs']. destruct (H s (opt_init s i) Hn Hs' Hc Hw Hd) as [t E]. rewrite E.
+      eexists _, _. split; [reflexivity | left; reflexivity]. }
+    destruct v; try (apply Hval; discriminate). apply Hnil. reflexivity.
+  Qed.
+
+  Lemma rt_elems e after : (forall i x r, rt_out e x r -> after i r = x) -> clean_maps e = true ->
     forall l inits, Forall rt l -> all_shape e l = true -> wf_list l -> Forall (fun v => doc_ok v = true) (map abs l) ->
     exists t, elems_tr e (load_tr e) after inits (map abs l) = (t, l, None).
   Proof.
@@ -827,8 +895,8 @@ Section RoundTrip.
     - eexists. reflexivity.
     - inversion HF as [|? ? Hx Hl]; subst. cbn [all_shape] in Hs. apply andb_true_iff in Hs. destruct Hs as [Hsx Hsl].
       destruct Hw as [Hwx Hwl]. cbn [map] in Hd. inversion Hd as [|? ? Hdx Hdl]; subst.
-      destruct (Hx e (hd (default_of e) inits) Hsx Hc Hwx Hdx) as [tx Ex]. rewrite Ex. destruct (IH (tl inits) Hl Hsl Hwl Hdl) as [t Et]. rewrite Et, Ha.
-      eexists. reflexivity.
+      destruct (Hx e (hd (default_of e) inits) Hsx Hc Hwx Hdx) as [tx [rx [Ex Ho]]]. rewrite Ex. destruct (IH (tl inits) Hl Hsl Hwl Hdl) as [t Et]. rewrite Et.
+      rewrite (Ha _ x rx Ho). pose proof (out_no_err _ _ _ Ho) as Hne. destruct rx; try destruct Hne; eexists; reflexivity.
   Qed.
 
   Lemma lookup_member pre k x post : keys_distinct (keys_of (map absp (pre ++ (TStr k, x) :: post))) = true ->
@@ -857,9 +925,10 @@ Section RoundTrip.
       inversion HF as [|? ? [_ Hx] Hl]; subst. cbn [fst snd] in Hx. destruct Hw as [_ [Hwx Hwl]].
       cbn [map] in Hdv. inversion Hdv as [|? ? Hdx Hdl]; subst. unfold absp at 1 in Hdx. cbn [snd] in Hdx.
       cbn [members_tr]. rewrite (lookup_member pre s x post Hd).
-      destruct (Hx s' (match inits with (_, x0) :: _ => x0 | [] => default_of s' end) Hsx Hcx Hwx Hdx) as [tx Ex]. rewrite Ex.
+      destruct (Hx s' (match inits with (_, x0) :: _ => x0 | [] => default_of s' end) Hsx Hcx Hwx Hdx) as [tx [rx [Ex Ho]]]. rewrite Ex.
       replace (pre ++ (TStr s, x) :: post) with ((pre ++ [(TStr s, x)]) ++ post) in * by (rewrite <- app_assoc; reflexivity).
-      destruct (IH ms' (pre ++ [(TStr s, x)]) (tl inits) Hl Hsl Hcl Hwl Hd Hdl) as [t Et]. rewrite Et. eexists. reflexivity.
+      destruct (IH ms' (pre ++ [(TStr s, x)]) (tl inits) Hl Hsl Hcl Hwl Hd Hdl) as [t Et]. rewrite Et.
+      rewrite (keep_out s' _ x rx Ho). pose proof (out_no_err _ _ _ Ho) as Hne. destruct rx; try destruct Hne; eexists; reflexivity.
   Qed.
 
   (* Clean: the map starts empty, every entry is new *)
@@ -874,8 +943,8 @@ Section RoundTrip.
       cbn [map_shape] in Hs. apply andb_true_iff in Hs. destruct Hs as [Hs Hsl]. apply andb_true_iff in Hs. destruct Hs as [Hk Hsx].
       destruct Hw as [Hwk [Hwx Hwl]]. cbn [map] in Hd. inversion Hd as [|? ? Hdx Hdl]; subst. unfold absp at 1 in Hdx. cbn [snd] in Hdx.
       unfold absp at 1. cbn [fst snd]. destruct (conv_abs o k ks Hk Hwk) as [kk [Ek Ec]]. rewrite Ek, Ec. cbn [map_find].
-      destruct (Hx e (default_of e) Hsx Hc Hwx Hdx) as [tx Ex]. rewrite Ex. destruct (IH Hl Hsl Hwl Hdl) as [t Et]. rewrite Et.
-      eexists. reflexivity.
+      destruct (Hx e (default_of e) Hsx Hc Hwx Hdx) as [tx [rx [Ex Ho]]]. rewrite Ex. destruct (IH Hl Hsl Hwl Hdl) as [t Et]. rewrite Et.
+      rewrite (keep_out e _ x rx Ho). pose proof (out_no_err _ _ _ Ho) as Hne. destruct rx; try destruct Hne; eexists; reflexivity.
   Qed.
 
   Lemma rt_comps : forall l ss inits, Forall rt l -> tuple_shape l ss = true -> forallb clean_maps ss = true -> wf_list l ->
@@ -887,8 +956,8 @@ Section RoundTrip.
     - inversion HF as [|? ? Hx Hl]; subst. cbn [tuple_shape] in Hs. apply andb_true_iff in Hs. destruct Hs as [Hsx Hsl].
       cbn [forallb] in Hc. apply andb_true_iff in Hc. destruct Hc as [Hcx Hcl].
       destruct Hw as [Hwx Hwl]. cbn [map] in Hd. inversion Hd as [|? ? Hdx Hdl]; subst.
-      destruct (Hx s' (hd (default_of s') inits) Hsx Hcx Hwx Hdx) as [tx Ex]. rewrite Ex. destruct (IH ss' (tl inits) Hl Hsl Hcl Hwl Hdl) as [t Et]. rewrite Et.
-      eexists. reflexivity.
+      destruct (Hx s' (hd (default_of s') inits) Hsx Hcx Hwx Hdx) as [tx [rx [Ex Ho]]]. rewrite Ex. destruct (IH ss' (tl inits) Hl Hsl Hcl Hwl Hdl) as [t Et]. rewrite Et.
+      rewrite (keep_out s' _ x rx Ho). pose proof (out_no_err _ _ _ Ho) as Hne. destruct rx; try destruct Hne; eexists; reflexivity.
   Qed.
 
   Lemma rt_bools : forall l prev, all_bool l = true ->
@@ -905,29 +974,29 @@ Section RoundTrip.
 
   Theorem load_save_spec : forall v, rt v.
   Proof.
-    apply tv_ind2; unfold rt.
-    - intros [] i Hs _ _ _; try discriminate Hs. eexists. reflexivity.
-    - intros b [] i Hs _ _ _; try discriminate Hs. destruct b; eexists; reflexivity.
-    - intros k z [] i Hs _ Hw _; try discriminate Hs. cbn [wf_tv] in Hw.
+    apply tv_ind2; intros; apply rt_lift.
+    - intros [] i Hno Hs _ _ _; try discriminate Hs; try destruct Hno. eexists. reflexivity.
+    - intros [] i Hno Hs _ _ _; try discriminate Hs; try destruct Hno. destruct b; eexists; reflexivity.
+    - intros [] i Hno Hs _ Hw _; try discriminate Hs; try destruct Hno. cbn [wf_tv] in Hw.
       assert (k = k0) by (destruct k, k0; try discriminate Hs; reflexivity). subst k0.
       cbn [MpLoadModel.load_tr target_of abs]. unfold scalar_tr. cbn [typed_spec]. rewrite (in_range_kind k z Hw). eexists. reflexivity.
-    - intros b [] i Hs _ _ _; try discriminate Hs. eexists. reflexivity.
-    - intros b [] i Hs _ _ _; try discriminate Hs. eexists. reflexivity.
-    - intros b [] i Hs _ _ _; try discriminate Hs. eexists. reflexivity.
-    - intros b [] i Hs _ _ _; try discriminate Hs. eexists. reflexivity.
-    - intros l HF [] i Hs Hc Hw Hd; try discriminate Hs.
+    - intros [] i Hno Hs _ _ _; try discriminate Hs; try destruct Hno. eexists. reflexivity.
+    - intros [] i Hno Hs _ _ _; try discriminate Hs; try destruct Hno. eexists. reflexivity.
+    - intros [] i Hno Hs _ _ _; try discriminate Hs; try destruct Hno. eexists. reflexivity.
+    - intros [] i Hno Hs _ _ _; try discriminate Hs; try destruct Hno. eexists. reflexivity.
+    - rename H into HF. intros [] i Hno Hs Hc Hw Hd; try discriminate Hs; try destruct Hno.
       + rewrite has_shape_arr in Hs. rewrite wf_arr in Hw. cbn [clean_maps] in Hc.
         apply doc_ok_arr in Hd. cbn [abs MpLoadModel.load_tr]. unfold vec_tr.
-        destruct (rt_elems e (fun _ r => fill e r) (fun _ _ => eq_refl) Hc l (arr_items i) HF Hs Hw Hd) as [t Et]. rewrite Et. eexists. reflexivity.
+        destruct (rt_elems e (fun _ r => fill e r) (fun _ x r => fill_out e x r) Hc l (arr_items i) HF Hs Hw Hd) as [t Et]. rewrite Et. eexists. reflexivity.
       + rewrite has_shape_arrn in Hs. apply andb_true_iff in Hs. destruct Hs as [Hlen Hs]. apply Nat.eqb_eq in Hlen. rewrite wf_arr in Hw.
         cbn [clean_maps] in Hc. apply doc_ok_arr in Hd. cbn [abs MpLoadModel.load_tr].
         replace (firstn n (map abs l)) with (map abs l) by (rewrite <- Hlen, <- (map_length abs l), firstn_all; reflexivity).
-        destruct (rt_elems e keep (fun _ _ => eq_refl) Hc l (arr_items i) HF Hs Hw Hd) as [t Et]. rewrite Et, map_length, Hlen, Nat.eqb_refl. eexists. reflexivity.
+        destruct (rt_elems e keep (fun i0 x r => keep_out e i0 x r) Hc l (arr_items i) HF Hs Hw Hd) as [t Et]. rewrite Et, map_length, Hlen, Nat.eqb_refl. eexists. reflexivity.
       + rewrite has_shape_vb in Hs. cbn [abs MpLoadModel.load_tr].
         destruct (rt_bools l false Hs) as [t Et]. rewrite Et. eexists. reflexivity.
       + rewrite has_shape_tuple in Hs. rewrite wf_arr in Hw. rewrite clean_maps_tuple in Hc. apply doc_ok_arr in Hd. cbn [abs MpLoadModel.load_tr].
         destruct (rt_comps l ss (arr_items i) HF Hs Hc Hw Hd) as [t Et]. rewrite Et. eexists. reflexivity.
-    - intros kvs HF [] i Hs Hc Hw Hd; try discriminate Hs.
+    - rename H into HF. intros [] i Hno Hs Hc Hw Hd; try discriminate Hs; try destruct Hno.
       + rewrite has_shape_obj in Hs. rewrite wf_obj in Hw. rewrite clean_maps_class in Hc.
         rewrite abs_obj in *. destruct (doc_ok_map _ Hd) as [_ [Hdist Hvals]].
         cbn [MpLoadModel.load_tr].
@@ -1064,16 +1133,34 @@ Section Transport.
   Qed.
 
   (* ---------- C01, MsgPack: save then load, into a target with ANY content ---------- *)
-  Theorem load_save_into v s i b : has_shape v s = true -> clean_maps s = true -> wf_tv v -> doc_ok (abs v) = true -> save v = Some b ->
-    load_bytes_into narrow widen o s i b = LOk v.
+  (* the result: loaded with the value; or, for an EMPTY wrapper at the root (saved as nil), reset to empty *)
+  Theorem load_save_out v s i b : has_shape v s = true -> clean_maps s = true -> wf_tv v -> doc_ok (abs v) = true -> save v = Some b ->
+    rt_out s v (load_bytes_into narrow widen o s i b).
   Proof.
     intros Hs Hc Hw Hd Hsv. unfold load_bytes_into, load_spec. rewrite (save_decodes v b Hw Hsv).
-    destruct (load_save_spec narrow widen o v s i Hs Hc Hw Hd) as [t E]. rewrite E. reflexivity.
+    destruct (load_save_spec narrow widen o v s i Hs Hc Hw Hd) as [t [r [E Ho]]]. rewrite E. exact Ho.
   Qed.
 
-  Theorem load_save v s b : has_shape v s = true -> clean_maps s = true -> wf_tv v -> doc_ok (abs v) = true -> save v = Some b ->
+  (* in every case the target holds the saved value afterwards *)
+  Theorem load_save_holds v s i b : has_shape v s = true -> clean_maps s = true -> wf_tv v -> doc_ok (abs v) = true -> save v = Some b ->
+    keep i (load_bytes_into narrow widen o s i b) = v /\ no_err (load_bytes_into narrow widen o s i b).
+  Proof.
+    intros Hs Hc Hw Hd Hsv. pose proof (load_save_out v s i b Hs Hc Hw Hd Hsv) as Ho.
+    split; [exact (keep_out s i v _ Ho) | exact (out_no_err s v _ Ho)].
+  Qed.
+
+  Lemma out_not_opt s v r : not_opt s -> has_shape v s = true -> rt_out s v r -> r = LOk v.
+  Proof.
+    intros Hn Hs [-> | [-> [-> E]]]; [reflexivity|]. exfalso. destruct s; try destruct E. destruct Hn.
+  Qed.
+
+  Theorem load_save_into v s i b : not_opt s -> has_shape v s = true -> clean_maps s = true -> wf_tv v -> doc_ok (abs v) = true -> save v = Some b ->
+    load_bytes_into narrow widen o s i b = LOk v.
+  Proof. intros Hn Hs Hc Hw Hd Hsv. exact (out_not_opt s v _ Hn Hs (load_save_out v s i b Hs Hc Hw Hd Hsv)). Qed.
+
+  Theorem load_save v s b : not_opt s -> has_shape v s = true -> clean_maps s = true -> wf_tv v -> doc_ok (abs v) = true -> save v = Some b ->
     load_bytes narrow widen o s b = LOk v.
-  Proof. intros Hs Hc Hw Hd Hsv. exact (load_save_into v s (default_of s) b Hs Hc Hw Hd Hsv). Qed.
+  Proof. intros Hn Hs Hc Hw Hd Hsv. exact (load_save_into v s (default_of s) b Hn Hs Hc Hw Hd Hsv). Qed.
 
   Theorem load_save_class_on_model kvs ms i b :
     has_shape (TObj kvs) (SClass ms) = true -> clean_maps (SClass ms) = true -> wf_tv (TObj kvs) -> doc_ok (abs (TObj kvs)) = true ->
@@ -1082,7 +1169,8 @@ Section Transport.
       run_obj_root narrow widen o b (class_prog ms i (map absp kvs)) = Done toks [] false /\
       load_obj narrow widen o b (class_prog ms i (map absp kvs)) = MpScopeModel.LOk toks [].
   Proof.
-    intros Hs Hc Hw Hd Hsv Hb. destruct (load_save_spec narrow widen o _ _ i Hs Hc Hw Hd) as [toks E].
+    intros Hs Hc Hw Hd Hsv Hb. destruct (load_save_spec narrow widen o _ _ i Hs Hc Hw Hd) as [toks [r [E Ho]]].
+    rewrite (out_not_opt (SClass ms) _ _ I Hs Ho) in E.
     exists toks. split; [exact E|]. rewrite abs_obj in *.
     exact (load_class_on_model b (map absp kvs) [] ms i toks _ Hb (save_decodes _ b Hw Hsv) Hd E I).
   Qed.
@@ -1094,7 +1182,8 @@ Section Transport.
       run_obj_root narrow widen o b (map_prog MClean ks e i (map absp kvs)) = Done toks [] false /\
       load_obj narrow widen o b (map_prog MClean ks e i (map absp kvs)) = MpScopeModel.LOk toks [].
   Proof.
-    intros Hs Hc Hw Hd Hsv Hb. destruct (load_save_spec narrow widen o _ _ i Hs Hc Hw Hd) as [toks E].
+    intros Hs Hc Hw Hd Hsv Hb. destruct (load_save_spec narrow widen o _ _ i Hs Hc Hw Hd) as [toks [r [E Ho]]].
+    rewrite (out_not_opt (SMap MClean ks e) _ _ I Hs Ho) in E.
     exists toks. split; [exact E|]. rewrite abs_obj in *.
     exact (load_map_on_model b (map absp kvs) [] MClean ks e i toks _ Hb (save_decodes _ b Hw Hsv) Hd E I).
   Qed.
@@ -1106,7 +1195,8 @@ Section Transport.
       run_arr_root narrow widen o b (vec_prog e i (map abs l)) = Done toks [] false /\
       load_arr narrow widen o b (vec_prog e i (map abs l)) = MpScopeModel.LOk toks [].
   Proof.
-    intros Hs Hc Hw Hd Hsv Hb. destruct (load_save_spec narrow widen o _ _ i Hs Hc Hw Hd) as [toks E].
+    intros Hs Hc Hw Hd Hsv Hb. destruct (load_save_spec narrow widen o _ _ i Hs Hc Hw Hd) as [toks [r [E Ho]]].
+    rewrite (out_not_opt (SVec e) _ _ I Hs Ho) in E.
     exists toks. split; [exact E|].
     exact (load_vec_on_model b (map abs l) [] e i toks _ Hb (save_decodes _ b Hw Hsv) Hd E I).
   Qed.
@@ -1216,7 +1306,7 @@ Lemma ex_tree_keys : doc_ok (abs ex_tree) = true. Proof. vm_compute. reflexivity
 Lemma ex_tree_save : save ex_tree = Some ex_bytes. Proof. vm_compute. reflexivity. Qed.
 Lemma ex_tree_bytes : bytes ex_bytes. Proof. apply bytes_forallb. vm_compute. reflexivity. Qed.
 Lemma ex_tree_loads : load_bytes no_narrow id_widen skip_all ex_shape ex_bytes = LOk ex_tree.
-Proof. exact (load_save no_narrow id_widen skip_all ex_tree ex_shape ex_bytes ex_tree_shape eq_refl ex_tree_wf ex_tree_keys ex_tree_save). Qed.
+Proof. exact (load_save no_narrow id_widen skip_all ex_tree ex_shape ex_bytes I ex_tree_shape eq_refl ex_tree_wf ex_tree_keys ex_tree_save). Qed.
 (* the same members in another order, one dropped, two undeclared ones added: "t" keeps its default *)
 Definition ex_bytes2 : list N :=
   [0x85; 0xA1; 0x7A; 0xC0; 0x2A; 0xC3; 0xA1; 0x67; 0x90; 0xA2; 0x69; 0x64; 0x05; 0xA1; 0x78; 0x91; 0x01].
@@ -1236,7 +1326,7 @@ Lemma ex_map_wf : wf_tv ex_map_tree. Proof. vm_compute. repeat split. Qed.
 Lemma ex_map_keys : doc_ok (abs ex_map_tree) = true. Proof. vm_compute. reflexivity. Qed.
 Lemma ex_map_save : save ex_map_tree = Some ex_map_bytes. Proof. vm_compute. reflexivity. Qed.
 Lemma ex_map_loads : load_bytes no_narrow id_widen skip_all ex_map_shape ex_map_bytes = LOk ex_map_tree.
-Proof. exact (load_save no_narrow id_widen skip_all ex_map_tree ex_map_shape ex_map_bytes ex_map_shape_ok eq_refl ex_map_wf ex_map_keys ex_map_save). Qed.
+Proof. exact (load_save no_narrow id_widen skip_all ex_map_tree ex_map_shape ex_map_bytes I ex_map_shape_ok eq_refl ex_map_wf ex_map_keys ex_map_save). Qed.
 (* { "n": {"ab":3, "":1}, "m": {5:[], 300:["x"], -3:["a"]} }: the keys arrive in another order (the maps sort them),
    300 does not fit int8_t: passed over under the Skip policy, an Overflow error under Throw *)
 Definition ex_map_bytes2 : list N :=
@@ -1287,7 +1377,7 @@ Section ReadOff.
     forall i v toks r rest, ld i v = (toks, r) -> no_err r -> rd i (toks ++ rest) = Some (r, rest).
 
   Definition read_ok' (s : shape) : Prop :=
-    reads (read_off s) (load_tr s) /\ forall i rest, read_off s i (absent_toks s ++ rest) = Some (LNot, rest).
+    reads (read_off s) (load_tr s) /\ forall i rest, read_off s i (absent_toks s ++ rest) = Some (absent_res s, rest).
   (* for shapes without std::map (the keys of a map are not among the tokens) *)
   Definition read_ok (s : shape) : Prop := map_free s = true -> read_ok' s.
 
@@ -1300,7 +1390,7 @@ Section ReadOff.
     - destruct (ld (hd (default_of e) inits) v) as [t0 r] eqn:El.
       assert (Hr : no_err r /\ exists t' items', elems_tr e ld after (tl inits) vs = (t', items', None) /\ t = KIsEnd false :: t0 ++ t'
                      /\ items = after (hd (default_of e) inits) r :: items').
-      { destruct r; [| |discriminate H].
+      { destruct r; [| | |discriminate H].
         all: destruct (elems_tr e ld after (tl inits) vs) as [[t' i'] e']; injection H as <- <- ->; split; [exact I | eauto]. }
       destruct Hr as [Hn [t' [items' [Hrest [-> ->]]]]].
       cbn [app read_elems]. rewrite <- app_assoc. rewrite (Hrd _ v t0 r _ El Hn).
@@ -1311,7 +1401,7 @@ Section ReadOff.
   Proof.
     induction vs as [|v vs IH]; intros inits t items Et; cbn [elems_tr] in Et.
     - injection Et as <- _. cbn. lia.
-    - destruct (ld (hd (default_of e) inits) v) as [t0 r]. destruct r; [| |discriminate Et].
+    - destruct (ld (hd (default_of e) inits) v) as [t0 r]. destruct r; [| | |discriminate Et].
       all: destruct (elems_tr e ld after (tl inits) vs) as [[t' i'] e'] eqn:E'; injection Et as <- _ ->;
            specialize (IH _ t' i' E'); cbn [length]; rewrite app_length; lia.
   Qed.
@@ -1349,9 +1439,9 @@ Section ReadOff.
     - injection H as <- <-. reflexivity.
     - cbn [snd] in Hrd, Habs.
       set (i0 := match inits with (_, x) :: _ => x | [] => default_of s' end) in *.
-      destruct (match lookup (KStr name) kvs with Some x => load_tr s' i0 x | None => (absent_toks s', LNot) end) as [t0 r] eqn:El.
+      destruct (match lookup (KStr name) kvs with Some x => load_tr s' i0 x | None => (absent_toks s', absent_res s') end) as [t0 r] eqn:El.
       assert (Hr : no_err r /\ exists t' f', members_tr load_tr kvs (tl inits) ms = (t', f', None) /\ t = t0 ++ t' /\ fields = (TStr name, keep i0 r) :: f').
-      { destruct r; [| |discriminate H].
+      { destruct r; [| | |discriminate H].
         all: destruct (members_tr load_tr kvs (tl inits) ms) as [[t' f'] e']; injection H as <- <- ->; split; [exact I | eauto]. }
       destruct Hr as [Hn [t' [f' [Hrest [-> ->]]]]]. rewrite <- app_assoc.
       assert (E0 : read_off s' i0 (t0 ++ t' ++ rest) = Some (r, t' ++ rest)).
@@ -1377,8 +1467,10 @@ Section ReadOff.
   Proof.
     induction vs as [|v vs IH]; intros prev t items H; cbn [bools_tr] in H.
     - injection H as <- _. cbn. lia.
-    - destruct (ld v) as [t0 r]. destruct r as [x| |e0]; [| |discriminate H].
+    - destruct (ld v) as [t0 r]. destruct r as [x| |x|e0]; [| | |discriminate H].
       + destruct (bools_tr ld (match x with TBool b => b | _ => prev end) vs) as [[t' i'] e'] eqn:E'. injection H as <- _ ->.
+        specialize (IH _ _ _ E'). cbn [length]. rewrite app_length. lia.
+      + destruct (bools_tr ld prev vs) as [[t' i'] e'] eqn:E'. injection H as <- _ ->.
         specialize (IH _ _ _ E'). cbn [length]. rewrite app_length. lia.
       + destruct (bools_tr ld prev vs) as [[t' i'] e'] eqn:E'. injection H as <- _ ->.
         specialize (IH _ _ _ E'). cbn [length]. rewrite app_length. lia.
@@ -1396,7 +1488,7 @@ Section ReadOff.
       + destruct (load_tr s (hd (default_of s) inits) v) as [t0 r] eqn:El.
         assert (Hr : no_err r /\ exists t' items', comps_tr o load_tr ss (tl inits) vs = (t', items', None) /\ t = KIsEnd false :: t0 ++ t'
                        /\ items = keep (hd (default_of s) inits) r :: items').
-        { destruct r; [| |discriminate H].
+        { destruct r; [| | |discriminate H].
           all: destruct (comps_tr o load_tr ss (tl inits) vs) as [[t' i'] e']; injection H as <- <- ->; split; [exact I | eauto]. }
         destruct Hr as [Hn [t' [items' [Hrest [-> ->]]]]].
         cbn [app]. rewrite <- app_assoc. rewrite (Hrd _ v t0 r (t' ++ KClose :: rest) El Hn), (IH (tl inits) vs t' items' Hrest rest). reflexivity.
@@ -1410,7 +1502,7 @@ Section ReadOff.
         by (destruct s; try destruct Hs; eexists; repeat split).
       destruct Ht as [t [Hl [Hr Ha]]]. split.
       + intros i v toks r rest H Hn. rewrite Hl in H. rewrite Hr. exact (scalar_reads s t i v toks r rest H Hn).
-      + intros i rest. rewrite Ha, Hr. reflexivity.
+      + intros i rest. rewrite Ha, Hr. destruct s; try destruct Hs; reflexivity.
     - (* byte container *)
       intros _. split; [|intros i rest; reflexivity].
       intros i v toks r rest H Hn. cbn [MpLoadModel.load_tr] in H.
@@ -1476,6 +1568,12 @@ Section ReadOff.
       { injection H as _ <-. destruct Hn. }
       injection H as <- <-. cbn [app read_off]. rewrite <- app_assoc. cbn [app].
       rewrite (comps_read ss Hss (arr_items i) l t items Et). reflexivity.
+    - (* wrapper *)
+      intros e IH Hf. destruct (IH Hf) as [IHe IHa]. split.
+      + intros i v toks r rest H Hn. cbn [MpLoadModel.load_tr] in H. destruct (load_tr e (opt_init e i) v) as [t r0] eqn:El.
+        injection H as <- <-. cbn [read_off].
+        rewrite (IHe (opt_init e i) v t r0 rest El) by (destruct r0; exact I || exact Hn). reflexivity.
+      + intros i rest. cbn [read_off absent_toks]. rewrite (IHa (opt_init e i) rest). destruct e; reflexivity.
   Qed.
 
   (* what the program's answers say is what load_spec says, whatever the target holds *)
@@ -1516,6 +1614,7 @@ Section Populated.
     - intros n e _ Hf. discriminate Hf.
     - intros _ i i' v. reflexivity.
     - intros ss _ Hf. discriminate Hf.
+    - intros e IH Hf i i' v. cbn [overwritten] in Hf. cbn [MpLoadModel.load_tr]. rewrite (IH Hf (opt_init e i) (opt_init e i') v). reflexivity.
   Qed.
 
   (* MapLoadMode::Clean: whatever the map holds and whatever its mapped values are: as into an empty map *)
@@ -1573,7 +1672,7 @@ Section Populated.
     - destruct (keyden k) as [kk|]; [|injection H as _ <- _; destruct Hin].
       destruct (conv_key o ks kk) as [key| |e0]; [|exact (IH _ _ _ H kv Hin) | injection H as _ <- _; destruct Hin].
       destruct (map_find key m0) as [old|] eqn:Ef; [|exact (IH _ _ _ H kv Hin)].
-      destruct (ld old x) as [t0 r]. destruct r as [y| |e0]; [| |injection H as _ <- _; destruct Hin].
+      destruct (ld old x) as [t0 r]. destruct r as [y| |y|e0]; [| | |injection H as _ <- _; destruct Hin].
       all: destruct (entries_tr o true ks e ld m0 kvs) as [[t' es'] err'] eqn:E'; injection H as _ <- _;
            (destruct Hin as [<- | Hin]; [cbn [fst]; rewrite Ef; discriminate | exact (IH _ _ _ eq_refl kv Hin)]).
   Qed.
